@@ -192,6 +192,30 @@ def run(ctx):
                     ctx.violation("path-values-differ", "file name with in_memory=True returned other values", desc)
             except Exception:
                 ctx.count("unsupported_file_in_memory")
+            # ONE user file re-used across cases: first holding this library in other (equivalent) column units,
+            # then overwritten with the internal-unit library. Values through the file must equal values through
+            # the object it was written from (physically for converted columns, bitwise for internal units).
+            shared = os.path.join(ctx.tmpdir, "c05_shared_library.hdf5")
+            if pb.profile in ("flat", "moderate"):
+                alt = {"P": str(rng.choice(["yr", "h"])), "omega": "deg", "M0": "deg", "s": "m/s" if pb.du != "m/s" else "km/s"}
+                lib_alt = session.gen.build_samples(pb.rows, units=alt, ln_prior=True)
+                lib_alt.write(shared, overwrite=True)
+                j = TheJoker(pb.prior, tempfile_path=ctx.tmpdir)
+                via_file = np.asarray(j.marginal_ln_likelihood(pb.data, shared, n_batches=int(rng.choice([1, 3]))))
+                via_obj = np.asarray(j.marginal_ln_likelihood(pb.data, lib_alt, in_memory=True))
+                ctx.evaluations += 1
+                ctx.distinct.add(repr(("reused-file", "other-units")))
+                if not np.allclose(via_file, via_obj, rtol=1e-7, atol=1e-7):
+                    ctx.violation("file-path-values-differ", "a library read from a (re-used) file path gives other likelihoods than "
+                                  "the object it was written from (max |diff| %.3g; columns stored in %s)"
+                                  % (float(np.max(np.abs(via_file - via_obj))), alt), dict(desc, units=alt))
+            pb.lib.write(shared, overwrite=True)
+            got = np.asarray(TheJoker(pb.prior, tempfile_path=ctx.tmpdir).marginal_ln_likelihood(pb.data, shared))
+            ctx.evaluations += 1
+            ctx.distinct.add(repr(("reused-file", "internal-units")))
+            if bits(got) != bits(base):
+                ctx.violation("file-path-values-differ", "the internal-unit library read from a re-used file path differs bitwise "
+                              "from the in-memory values (max |diff| %.3g)" % float(np.max(np.abs(got - base))), desc)
             # single rows and random sub-slices
             for _ in range(6):
                 a, b = sorted(int(x) for x in rng.integers(0, N + 1, 2))
